@@ -222,6 +222,12 @@ def run(r):
                         if p.get("skipped"):
                             r.count("piece-skipped-size")
                             continue
+                        wrong = [x for x in p["recs"] if x["target"] != x["target_indep"]]
+                        if wrong and ("jt", c["file"]) not in reported and len([k for k in reported if k[0] == "jt"]) < 2:
+                            reported.add(("jt", c["file"]))
+                            r.violation({"component": "Bytecode / listing: '>>' marks", "file": c["file"], "format": c["fmt"], "code_object": p["name"], "instruction": wrong[0],
+                                         "why": "the instruction's is_jump_target (and so its '>>' mark) is not 'offset is a label of the code or, from 3.11, a handler target of its exception table'",
+                                         "origin": c["origin"]})
                         lits.append(piece_lit(c["fmt"], p["recs"], p["text"]))
                         owners.append({"file": c["file"], "format": c["fmt"], "code_object": p["name"], "recs": p["recs"], "text": p["text"]})
                         r.count("piece:" + c["fmt"])
